@@ -83,12 +83,19 @@ def run_case(case):
         T = cm.rep_values(T, rkind, scale=2.0)
     dbl = [tuple(2 * x for x in o) for o in orders]
     ref_all = gto.moments(rs, origin, orders + dbl)
-    if T is not None:
-        ref_all = np.einsum("ia,jb,abd->ijd", T, T, ref_all)
     D = len(orders)
+    floor = 0.0
+    if T is not None:
+        # a transformed orbital may vanish identically (linearly dependent columns combined with integer coefficients):
+        # its Cauchy-Schwarz scale is then 0 and only rounding noise of the terms is left, so the scale never drops below
+        # 1e-4 of the same scale carried through |T| (FA19)
+        n0 = np.abs(np.einsum("iid->id", ref_all[:, :, D:]))
+        s0 = np.sqrt(np.sqrt(n0[:, None, :] * n0[None, :, :]))
+        floor = 1e-4 * np.einsum("ia,jb,abd->ijd", np.abs(T), np.abs(T), s0)
+        ref_all = np.einsum("ia,jb,abd->ijd", T, T, ref_all)
     ref = ref_all[:, :, :D]
     norm2 = np.abs(np.einsum("iid->id", ref_all[:, :, D:]))
-    scale = np.sqrt(np.sqrt(norm2[:, None, :] * norm2[None, :, :]))
+    scale = np.maximum(np.sqrt(np.sqrt(norm2[:, None, :] * norm2[None, :, :])), floor)
     kw = {} if T is None else {"transform": cm.rep_typed(T, rkind)}
     M = cm.call(moment_integral, cm.build(shells), origin.copy(), np.array(orders, dtype=int), **kw)
     cm.compare(M, ref, TOL, "moment_integral", "moment", viols, errs, scale=scale + 1e-300, ls=cm.ls_of(shells), orders=[list(o) for o in orders])
